@@ -28,7 +28,7 @@ func cfg(c *core.Ctx, fams []string, size, nsel int) string {
 		core.TLASet(c.Findings.OpenIDs()), strings.Join(q, ", "), size, nsel)
 }
 
-var mathFams = []string{"math", "gnum", "const", "random"}
+var mathFams = []string{"math", "gnum", "const", "random", "rep"}
 var uriFams = []string{"enc", "single", "lone", "dec", "unesc", "args", "mut"}
 
 var Spec = &gen.Spec{
